@@ -1,7 +1,10 @@
 #!/bin/sh
 # Re-runs every quick check with --update-ledger (rewrites evidence/*.json and contracts/LEDGER.json).
+# Full output per property is kept under /tmp/refresh_logs (for triage of anything that is not green).
 cd /verif
-for p in C01 C02 C03 C04 C05 C06 C07 C08 C09 C10 C11 C12 C13 C14 C15 C16 C17 C18 C19 C20; do
-  ./check $p --update-ledger 2>&1 | grep -av "^KNOWN\|^WARNING" | tail -2 | tr '\n' ' '; echo
+mkdir -p /tmp/refresh_logs
+for p in ${@:-C01 C02 C03 C04 C05 C06 C07 C08 C09 C10 C11 C12 C13 C14 C15 C16 C17 C18 C19 C20}; do
+  ./check $p --update-ledger > /tmp/refresh_logs/$p.log 2>&1
+  grep -av "^KNOWN\|^WARNING" /tmp/refresh_logs/$p.log | tail -2 | tr '\n' ' '; echo
 done
 ./tools/gen_manifest.sh
